@@ -63,7 +63,8 @@ try:
 finally:
     sh("git -C /repo checkout -- . && git -C /repo clean -fdq -- contracts packages")
 res["detection"] = det
-dst = f"/verif/seeded/{prop}{sub}"
+suffix = [a for a in sys.argv[4:] if not a.startswith("--")]
+dst = f"/verif/seeded/{prop}{suffix[0] if suffix else sub}"
 os.makedirs(dst, exist_ok=True)
 shutil.copy(os.path.join(src, "patch.diff"), dst)
 shutil.copy(os.path.join(src, "demo.diff"), dst)
@@ -78,4 +79,4 @@ out_meta = {
     "detection": det,
 }
 json.dump(out_meta, open(os.path.join(dst, "meta.json"), "w"), indent=1)
-print(json.dumps({"id": prop + sub, "confirmed": res.get("confirmed"), "detection": det}, indent=1))
+print(json.dumps({"id": os.path.basename(dst), "confirmed": res.get("confirmed"), "detection": det}, indent=1))
